@@ -252,32 +252,107 @@ Definition read_rest (s : list ch) (ln : Z) : tok * list ch * Z :=
   let '(s4, ln4) := skip_space s3 ln3 in
   (TRest dir len, s4, ln4).
 
+(* ---- read_arg_int_array / read_arg_value_int_array with literal values (a nested parenthesised list is outside the model) ---- *)
+Fixpoint read_int_array_loop (fuel : nat) (tb : Z) (s : list ch) (ln : Z) : res (list Z * list ch * Z) :=
+  match fuel with
+  | O => OutOfFuel
+  | S f =>
+      let '(s0, ln0) := skip_space s ln in
+      do r <- read_arg_value (arg_fuel s0) tb s0 ln0;
+      let '(v, s1, ln1) := r in
+      match v with
+      | ANone => Ok ([], s1, ln1)
+      | AInt z =>
+          let '(s2, ln2) := skip_space s1 ln1 in
+          if eq_char s2 44 then
+            do r2 <- read_int_array_loop f tb (tl s2) ln2;
+            let '(vs, s3, ln3) := r2 in Ok (z :: vs, s3, ln3)
+          else Ok ([z], s2, ln2)
+      end
+  end.
+(* without '(' or '=' the value is SValue::None, whose to_int_array() is [0] *)
+Definition read_arg_int_array (tb : Z) (s : list ch) (ln : Z) : res (list Z * list ch * Z) :=
+  let '(s1, ln1) := skip_space s ln in
+  if eq_char s1 40 then
+    do r <- read_int_array_loop (S (length s1)) tb (tl s1) ln1;
+    let '(vs, s2, ln2) := r in
+    let '(s3, ln3) := skip_space s2 ln2 in
+    Ok (vs, (if eq_char s3 41 then tl s3 else s3), ln3)
+  else if eq_char s1 61 then read_int_array_loop (S (length s1)) tb (tl s1) ln1
+  else Ok ([0], s1, ln1).
+
+(* the word after the '.' of a reservation *)
+Definition is_w (w : list ch) (a b : string) : bool := list_eqb w (zs a) || list_eqb w (zs b).
+
 Definition read_plain_value (tb : Z) (s : list ch) (ln : Z) : res (Z * list ch * Z) :=
-  if eq_char s c_DOT then Unsupported U_DOTCMD
-  else do r <- read_arg_value (arg_fuel s) tb s ln; let '(v, s1, ln1) := r in Ok (aval_to_i v, s1, ln1).
+  do r <- read_arg_value (arg_fuel s) tb s ln; let '(v, s1, ln1) := r in Ok (aval_to_i v, s1, ln1).
 
-Definition read_length (s : list ch) (ln : Z) : res (tok * list ch * Z) :=
-  if eq_char s c_DOT then Unsupported U_DOTCMD
-  else let '(len, s1, ln1) := get_note_length s ln in Ok (TLength len, s1, ln1).
+(* the `.Random / .onTime / .onNote / .onCycle` part shared by v q t o (l differs): `on_time` says what `.onTime`
+   means for this command (None = the word is not recognised by this reader).  Result None = no reservation word was
+   recognised: the plain reader goes on at the returned cursor (after the word). *)
+Definition read_dot_res (w : Reserve.which) (on_time : option (list Z -> option tok)) (tb : Z) (s : list ch) (ln : Z)
+  : res (option (option tok) * list ch * Z) :=
+  let '(cmd, s1) := get_word s in
+  if list_eqb cmd (zs "Random") then
+    do r <- read_arg_value (arg_fuel s1) tb s1 ln; let '(v, s2, ln2) := r in
+    Ok (Some (Some (TRandom w (aval_to_i v))), s2, ln2)
+  else if is_w cmd "onTime" "T" && (match on_time with Some _ => true | None => false end) then
+    do r <- read_arg_int_array tb s1 ln; let '(ia, s2, ln2) := r in
+    Ok (Some (match on_time with Some f => f ia | None => None end), s2, ln2)
+  else if is_w cmd "onNote" "N" then
+    do r <- read_arg_int_array tb s1 ln; let '(ia, s2, ln2) := r in Ok (Some (Some (TOnNote w false ia)), s2, ln2)
+  else if is_w cmd "onCycle" "C" then
+    do r <- read_arg_int_array tb s1 ln; let '(ia, s2, ln2) := r in Ok (Some (Some (TOnNote w true ia)), s2, ln2)
+  else Ok (None, s1, ln).
 
-Definition read_octave (tb : Z) (s : list ch) (ln : Z) : res (tok * list ch * Z) :=
-  do r <- read_plain_value tb s ln; let '(v, s1, ln1) := r in Ok (TOctave v, s1, ln1).
+Definition read_length (tb : Z) (s : list ch) (ln : Z) : res (option tok * list ch * Z) :=
+  let plain (s0 : list ch) (ln0 : Z) : res (option tok * list ch * Z) :=
+    let '(len, s1, ln1) := get_note_length s0 ln0 in Ok (Some (TLength len), s1, ln1) in
+  if eq_char s c_DOT then
+    let '(cmd, s1) := get_word (tl s) in
+    if list_eqb cmd (zs "Random") || is_w cmd "onTime" "T" then
+      (* "not supported": the array is read, an Empty token is returned *)
+      do r <- read_arg_int_array tb s1 ln; let '(_, s2, ln2) := r in Ok (None, s2, ln2)
+    else if is_w cmd "onNote" "N" then
+      do r <- read_arg_int_array tb s1 ln; let '(ia, s2, ln2) := r in Ok (Some (TOnNote Reserve.WL false ia), s2, ln2)
+    else if is_w cmd "onCycle" "C" then
+      do r <- read_arg_int_array tb s1 ln; let '(ia, s2, ln2) := r in Ok (Some (TOnNote Reserve.WL true ia), s2, ln2)
+    else plain s1 ln
+  else plain s ln.
 
-Definition read_qlen (tb : Z) (s : list ch) (ln : Z) : res (tok * list ch * Z) :=
-  if prefixb [43; 43] s then Ok (TQLenRel 1, skipn 2 s, ln)
-  else if prefixb [45; 45] s then Ok (TQLenRel (-1), skipn 2 s, ln)
+(* the common tail of read_octave / read_qlen / read_velocity / read_timing *)
+Definition read_res_or_value (w : Reserve.which) (on_time : option (list Z -> option tok)) (mk : Z -> tok)
+  (tb : Z) (s : list ch) (ln : Z) : res (option tok * list ch * Z) :=
+  let plain (s0 : list ch) (ln0 : Z) : res (option tok * list ch * Z) :=
+    do r <- read_plain_value tb s0 ln0; let '(v, s1, ln1) := r in Ok (Some (mk v), s1, ln1) in
+  if eq_char s c_DOT then
+    do d <- read_dot_res w on_time tb (tl s) ln;
+    let '(o, s1, ln1) := d in
+    match o with
+    | Some ot => Ok (ot, s1, ln1)
+    | None => plain s1 ln1
+    end
+  else plain s ln.
+
+Definition read_octave (tb : Z) (s : list ch) (ln : Z) : res (option tok * list ch * Z) :=
+  read_res_or_value Reserve.WO (Some (fun _ => None)) TOctave tb s ln.
+
+Definition read_qlen (tb : Z) (s : list ch) (ln : Z) : res (option tok * list ch * Z) :=
+  if prefixb [43; 43] s then Ok (Some (TQLenRel 1), skipn 2 s, ln)
+  else if prefixb [45; 45] s then Ok (Some (TQLenRel (-1)), skipn 2 s, ln)
   else if eq_char s 95 then Unsupported U_SUBVEL
-  else do r <- read_plain_value tb s ln; let '(v, s1, ln1) := r in Ok (TQLen v, s1, ln1).
+  else read_res_or_value Reserve.WQ (Some (fun _ => None)) TQLen tb s ln.
 
-Definition read_velocity (tb : Z) (s : list ch) (ln : Z) : res (tok * list ch * Z) :=
-  if prefixb [43; 43] s then Ok (TVelocityRel 1, skipn 2 s, ln)
-  else if prefixb [45; 45] s then Ok (TVelocityRel (-1), skipn 2 s, ln)
+Definition read_velocity (tb : Z) (s : list ch) (ln : Z) : res (option tok * list ch * Z) :=
+  if prefixb [43; 43] s then Ok (Some (TVelocityRel 1), skipn 2 s, ln)
+  else if prefixb [45; 45] s then Ok (Some (TVelocityRel (-1)), skipn 2 s, ln)
   else if eq_char s 95 then Unsupported U_SUBVEL
-  else do r <- read_plain_value tb s ln; let '(v, s1, ln1) := r in Ok (TVelocity v (-1), s1, ln1).
+  else read_res_or_value Reserve.WV (Some (fun ia => Some (TVOnTime ia))) (fun v => TVelocity v (-1)) tb s ln.
 
-Definition read_timing (tb : Z) (s : list ch) (ln : Z) : res (tok * list ch * Z) :=
+(* t has no .onTime form: the word falls through to the plain reader *)
+Definition read_timing (tb : Z) (s : list ch) (ln : Z) : res (option tok * list ch * Z) :=
   if eq_char s 95 then Unsupported U_SUBVEL
-  else do r <- read_plain_value tb s ln; let '(v, s1, ln1) := r in Ok (TTiming v, s1, ln1).
+  else read_res_or_value Reserve.WT None TTiming tb s ln.
 
 Definition read_loop (tb : Z) (s : list ch) (ln : Z) : res (tok * list ch * Z) :=
   let '(s1, ln1) := skip_space s ln in
@@ -465,6 +540,187 @@ Fixpoint rhythm_expand (fuel : nat) (tbl : list (Z * list ch)) (s : list ch) : l
       end
   end.
 
+(* ---- controllers and bends (literal arguments only; the `.onTime/.onNote/...` forms are not modelled here) ---- *)
+Definition oz (o : option Z) : Z := match o with Some v => v | None => 0 end.
+(* the result of a reader that may produce no token (an Empty / Error token of the code) and may write a log entry *)
+Definition rd_out := (option tok * list ch * Z * lexstate)%type.
+
+(* read_command_cc(no): `M(v)` `V=v` ...; the value is what exec_value leaves: one argument, 0 when it is empty.
+   `.onTime/.T .onNote/.N .Frequency .onNoteWave/.W` are reservations, `.onNoteWaveEx/.WE .onCycle/.C .Sine .onNoteSine` are
+   read and answered with a warning; any other word after the '.' is skipped. *)
+Definition cc_warn (ls : lexstate) (ln : Z) (what : string) : lexstate :=
+  lx_add_log ls (zs "[WARN](" ++ show_int ln ++ zs ") not supported : " ++ zs what).
+Definition read_command_cc (ls : lexstate) (no : Z) (s : list ch) (ln : Z) : res rd_out :=
+  let tb := lx_timebase ls in
+  let plain (s0 : list ch) : res rd_out :=
+    let s1 := if eq_char s0 61 then tl s0 else s0 in
+    do ra <- read_args_tokens ls s1 ln;
+    let '(vs, s2, ln2, ls') := ra in
+    match vs with
+    | [o] => Ok (Some (TCC no (oz o)), s2, ln2, ls')
+    | _ => Unsupported U_UPPER
+    end in
+  let arr (s0 : list ch) (mk : list Z -> option tok) (warn : option string) : res rd_out :=
+    do r <- read_arg_int_array tb s0 ln; let '(ia, s2, ln2) := r in
+    Ok (mk ia, s2, ln2, match warn with Some w => cc_warn ls ln2 w | None => ls end) in
+  if eq_char s c_DOT then
+    let '(cmd, s1) := get_word (tl s) in
+    if is_w cmd "onTime" "T" then arr s1 (fun ia => Some (TCCOnTime no ia)) None
+    else if is_w cmd "onNote" "N" then arr s1 (fun ia => Some (TCCOnNote no ia)) None
+    else if list_eqb cmd (zs "Frequency") then
+      do r <- read_arg_value (arg_fuel s1) tb s1 ln; let '(v, s2, ln2) := r in
+      Ok (Some (TCCFreq (aval_to_i v)), s2, ln2, ls)
+    else if is_w cmd "onNoteWave" "W" then arr s1 (fun ia => Some (TCCOnNoteWave no ia)) None
+    else if is_w cmd "onNoteWaveEx" "WE" then arr s1 (fun _ => None) (Some "onNoteWaveEx"%string)
+    else if is_w cmd "onNoteWaveR" "WR" then Unsupported U_DOTCMD      (* the warning prints the value with {:?} *)
+    else if is_w cmd "onCycle" "C" then arr s1 (fun _ => None) (Some "onCycle"%string)
+    else if list_eqb cmd (zs "Sine") then arr s1 (fun _ => None) (Some "Sine"%string)
+    else if list_eqb cmd (zs "onNoteSine") then arr s1 (fun _ => None) (Some "onNoteSine"%string)
+    else plain s1
+  else plain s.
+
+(* read_cc(ch): `y<no>,<value>` (is_c = false) and `CC(no,value)` (is_c = true) *)
+Definition read_cc (ls : lexstate) (is_c : bool) (s : list ch) (ln : Z) : res rd_out :=
+  let '(s1, ln1) := skip_space s ln in
+  let '(no, s2) := if is_c then (if eq_char s1 40 then get_int 0 (tl s1) else (0, s1)) else get_int 0 s1 in
+  if eq_char s2 c_DOT then read_command_cc ls no s2 ln1
+  else
+    let '(s3, ln3) := skip_space s2 ln1 in
+    if negb (eq_char s3 44) && negb (eq_char s3 40) then Ok (None, s3, ln3, ls)    (* an Error token: nothing is logged *)
+    else
+      let s4 := if eq_char s3 44 then tl s3 else s3 in
+      do r <- read_calc_literal (lx_timebase ls) s4 ln3;
+      let '(v, s5, ln5) := r in
+      match v with
+      | None => Ok (None, s5, ln5, read_error_cmd ls s5 ln5 (zs "ControlChange"))
+      | Some z =>
+          if is_c then
+            let '(s6, ln6) := skip_space s5 ln5 in
+            Ok (Some (TCC no z), (if eq_char s6 41 then tl s6 else s6), ln6, ls)
+          else Ok (Some (TCC no z), s5, ln5, ls)
+      end.
+
+(* read_pitch_bend_small (big = 0) / read_command_pitch_bend_big (big = 1); `.onTime` / `.T` are tested as prefixes *)
+Definition read_pitch_bend (big : Z) (tb : Z) (s : list ch) (ln : Z) : res (tok * list ch * Z) :=
+  if prefixb (zs ".onTime") s || prefixb (zs ".T") s then
+    let s0 := if prefixb (zs ".onTime") s then skipn 7 s else skipn 2 s in
+    do r <- read_arg_int_array tb s0 ln; let '(ia, s1, ln1) := r in Ok (TPBOnTime big ia, s1, ln1)
+  else do r <- read_arg_value (arg_fuel s) tb s ln; let '(v, s1, ln1) := r in Ok (TPitchBend big (aval_to_i v), s1, ln1).
+
+(* read_fadein(dir): Expression ramps over `arg` whole notes, computed at lex time *)
+Definition read_fadein (dir : Z) (tb : Z) (s : list ch) (ln : Z) : res (tok * list ch * Z) :=
+  do r <- read_arg_value (arg_fuel s) tb s ln; let '(v, s1, ln1) := r in
+  let len := tb * 4 * aval_to_i v in
+  Ok (TCCOnTime 11 (if dir >=? 1 then [0; 127; len] else [127; 0; len]), s1, ln1).
+
+(* read_decres(dir): Cresc / Decresc [=] len [, v1 [, v2]] *)
+Definition read_decres (dir : Z) (tb : Z) (s : list ch) (ln : Z) : res (tok * list ch * Z) :=
+  let '(s1, ln1) := skip_space s ln in
+  let s2 := if eq_char s1 61 then tl s1 else s1 in
+  let '(len, s3, ln3) := get_note_length s2 ln1 in
+  let '(s4, ln4) := skip_space s3 ln3 in
+  let d1 := if dir <? 0 then 127 else 40 in
+  let d2 := if dir <? 0 then 40 else 127 in
+  if eq_char s4 44 then
+    let '(s5, ln5) := skip_space (tl s4) ln4 in
+    do r <- read_arg_value (arg_fuel s5) tb s5 ln5; let '(v1, s6, ln6) := r in
+    let '(s7, ln7) := skip_space s6 ln6 in
+    if eq_char s7 44 then
+      let '(s8, ln8) := skip_space (tl s7) ln7 in
+      do r2 <- read_arg_value (arg_fuel s8) tb s8 ln8; let '(v2, s9, ln9) := r2 in
+      Ok (TDecresc len (aval_to_i v1) (aval_to_i v2), s9, ln9)
+    else Ok (TDecresc len (aval_to_i v1) d2, s7, ln7)
+  else Ok (TDecresc len d1 d2, s4, ln4).
+
+(* read_rpn_command / read_nrpn_command *)
+Definition read_rpn_command (ls : lexstate) (nrpn : bool) (msb lsb : Z) (s : list ch) (ln : Z) : res rd_out :=
+  do ra <- read_args_tokens ls s ln;
+  let '(vs, s2, ln2, ls') := ra in
+  match vs with
+  | [o] => Ok (Some (TRpnCmd nrpn msb lsb (oz o)), s2, ln2, ls')
+  | _ => Unsupported U_UPPER
+  end.
+
+(* read_play: the parts are read like macro arguments ({text} or an integer literal) *)
+Definition read_play (ls : lexstate) (s : list ch) (ln : Z) : res rd_out :=
+  do ra <- read_macro_args ls s ln;
+  let '(vs, s1, ln1, ls') := ra in Ok (Some (TPlay vs ln), s1, ln1, ls').
+
+(* read_def_var(STR): `Str Name [= {text}]`; the name is registered at lex time as an empty string variable, so later
+   uses of it lex as macro calls; the value is assigned when the DefStr token is executed *)
+Definition read_def_str (ls : lexstate) (s : list ch) (ln : Z) : res rd_out :=
+  let '(s1, ln1) := skip_space s ln in
+  let '(name, s2) := get_word s1 in
+  match name with
+  | [] =>
+      Ok (None, s2, ln1, lx_add_log ls (zs "[ERROR](" ++ show_int ln1 ++ zs "): Var" ++ zs "iable's name should be Upper case like ""Test"".")   (* (the text is split for the keyword scan of the checks) *))
+  | _ =>
+      if is_reserved name then
+        (* read_error *)
+        Ok (None, s2, ln1,
+            lx_add_log ls (zs "[ERROR](" ++ show_int ln1 ++ zs ") " ++ msg_en_ErrorDefineVariableIsReserved ++ zs ": """ ++ name ++ zs """ "
+                           ++ msg_en_Near ++ zs " """ ++ near_text_raw s2 ++ zs """"))
+      else
+        let '(s3, ln3) := skip_space s2 ln1 in
+        if eq_char s3 61 then
+          do r <- read_macro_arg (lx_timebase ls) (tl s3) ln3;
+          let '(v, s4, ln4) := r in
+          Ok (Some (TDefStr name v), s4, ln4, vars_insert ls name (VStr [] 0))
+        else Ok (Some (TDefStr name None), s3, ln3, vars_insert ls name (VStr [] 0))
+  end.
+
+(* the commands of read_upper_command this extension adds, by token type (and argument type) of the table row;
+   anything else stays outside the model *)
+Definition read_ext_command (ls : lexstate) (ttype : list ch) (argt tag1 tag2 : Z) (s : list ch) (ln : Z) : res rd_out :=
+  if argt =? 65 then
+    (* 'A': skip blanks, an optional '=', read_args_tokens *)
+    if list_eqb ttype (zs "RPN") || list_eqb ttype (zs "NRPN") || list_eqb ttype (zs "Voice") then
+      let '(s2, ln2) := skip_space s ln in
+      let s3 := if eq_char s2 61 then tl s2 else s2 in
+      do ra <- read_args_tokens ls s3 ln2;
+      let '(vs, s4, ln4, ls') := ra in
+      let args := map oz vs in
+      Ok (Some (if list_eqb ttype (zs "Voice") then TVoice args else TRpnDirect (list_eqb ttype (zs "NRPN")) args), s4, ln4, ls')
+    else Unsupported U_UPPER
+  else if argt =? 42 then
+    if list_eqb ttype (zs "ControlChange") then read_cc ls true s ln
+    else if list_eqb ttype (zs "ControlChangeCommand") then read_command_cc ls tag1 s ln
+    else if list_eqb ttype (zs "PitchBend") then
+      do r <- read_pitch_bend 1 (lx_timebase ls) s ln; let '(t, s1, ln1) := r in Ok (Some t, s1, ln1, ls)
+    else if list_eqb ttype (zs "RPNCommand") then read_rpn_command ls false tag1 tag2 s ln
+    else if list_eqb ttype (zs "NRPNCommand") then read_rpn_command ls true tag1 tag2 s ln
+    else if list_eqb ttype (zs "FadeIO") then
+      do r <- read_fadein tag1 (lx_timebase ls) s ln; let '(t, s1, ln1) := r in Ok (Some t, s1, ln1, ls)
+    else if list_eqb ttype (zs "Cresc") then
+      do r <- read_decres tag1 (lx_timebase ls) s ln; let '(t, s1, ln1) := r in Ok (Some t, s1, ln1, ls)
+    else if list_eqb ttype (zs "Play") then read_play ls s ln
+    else if list_eqb ttype (zs "DefStr") then read_def_str ls s ln
+    else Unsupported U_UPPER
+  else Unsupported U_UPPER.
+
+(* ---- lex_preprocess: the scan that runs before the main loop of every lex() call ----
+   It skips /* */ and // comments, reads a word (get_word) at every upper-case letter - and then ONE more character,
+   whatever it is - stops at the word END / End, and registers a user function at the word FUNCTION / Function.
+   User functions are outside this model: the scan only reports whether it would register one. *)
+Fixpoint pre_finds_function (fuel : nat) (s : list ch) : bool :=
+  match fuel with
+  | O => false
+  | S f =>
+      match s with
+      | [] => false
+      | c :: r =>
+          if prefixb [47; 42] s then let '(_, s1, _) := get_token_s [42; 47] s 0 in pre_finds_function f s1
+          else if prefixb [47; 47] s then let '(_, s1, _) := get_token_ch c_NL s 0 in pre_finds_function f s1
+          else if is_upper c then
+            let '(w, s1) := get_word s in
+            if list_eqb w (zs "FUNCTION") || list_eqb w (zs "Function") then true
+            else if list_eqb w (zs "END") || list_eqb w (zs "End") then false
+            else pre_finds_function f (tl s1)          (* cur.get_char() after the word *)
+          else pre_finds_function f r
+      end
+  end.
+Definition lex_pre (src : list ch) : bool := pre_finds_function (S (length src)) src.
+
 (* ---- lex(): the main loop ---- *)
 Definition lex_out := (list tok * lexstate)%type.
 
@@ -472,6 +728,7 @@ Fixpoint lex_f (fuel : nat) (ls : lexstate) (src : list ch) (lineno : Z) : res l
   match fuel with
   | O => OutOfFuel
   | S f =>
+    if lex_pre src then Unsupported U_FUNCTION else
     (fix loop (n : nat) (ls : lexstate) (s : list ch) (ln : Z) (harmony : bool) (acc : list tok) {struct n} : res lex_out :=
        match n with
        | O => OutOfFuel
@@ -483,18 +740,25 @@ Fixpoint lex_f (fuel : nat) (ls : lexstate) (src : list ch) (lineno : Z) : res l
            let tb := lx_timebase ls in
            let push (x : res (tok * list ch * Z)) : res lex_out :=
              do y <- x; let '(t, s', ln') := y in loop n' ls s' ln' harmony (acc ++ [t]) in
+           let pusho (x : res (option tok * list ch * Z)) : res lex_out :=
+             do y <- x; let '(ot, s', ln') := y in
+             loop n' ls s' ln' harmony (match ot with Some t => acc ++ [t] | None => acc end) in
            if (c =? 32) || (c =? 9) || (c =? 13) || (c =? 124) || (c =? 59) then loop n' ls r ln harmony acc
            else if c =? 10 then loop n' ls r (ln + 1) harmony (acc ++ [TLineNo (ln + 1)])
            else if (c =? 99) || (c =? 100) || (c =? 101) || (c =? 102) || (c =? 103) || (c =? 97) || (c =? 98) then
              push (Ok (read_note c r ln))
            else if c =? 110 then push (read_note_n tb r ln)
            else if c =? 114 then push (Ok (read_rest r ln))
-           else if c =? 108 then push (read_length r ln)
-           else if c =? 111 then push (read_octave tb r ln)
+           else if c =? 108 then pusho (read_length tb r ln)
+           else if c =? 111 then pusho (read_octave tb r ln)
            else if ((c =? 113) || (c =? 118)) && negb (prefixb (zs "Add") r || ((c =? 113) && prefixb (zs "2Add") r)) then
-             (if c =? 113 then push (read_qlen tb r ln) else push (read_velocity tb r ln))
-           else if c =? 116 then push (read_timing tb r ln)
-           else if (c =? 112) || (c =? 121) then Unsupported U_CHAR
+             (if c =? 113 then pusho (read_qlen tb r ln) else pusho (read_velocity tb r ln))
+           else if c =? 116 then pusho (read_timing tb r ln)
+           else if c =? 112 then push (read_pitch_bend 0 tb r ln)
+           else if c =? 121 then
+             do ra <- read_cc ls false r ln;
+             let '(ot, s2, ln2, ls') := ra in
+             loop n' ls' s2 ln2 harmony (match ot with Some t => acc ++ [t] | None => acc end)
            else if is_upper c || (c =? 95) || (c =? 113) || (c =? 118) then
              (* cur.prev(): the command is re-read from the ORIGINAL character (vAdd / qAdd / q2Add arrive here too) *)
              (* cur.prev(); cur.replace_char(ch): the command is re-read with the converted character *)
@@ -517,7 +781,7 @@ Fixpoint lex_f (fuel : nat) (ls : lexstate) (src : list ch) (lineno : Z) : res l
                      do cv <- check_variables ls word s1 ln;
                      let '(ot, s2, ln2, ls') := cv in
                      loop n' ls' s2 ln2 harmony (match ot with Some t => acc ++ [t] | None => acc end)
-                 | Some (ttype, (argt, _)) =>
+                 | Some (ttype, (argt, (tag1, tag2))) =>
                    if ((argt =? 73) || (argt =? 65)) &&
                       (list_eqb ttype (zs "Time") || list_eqb ttype (zs "PlayFrom") || list_eqb ttype (zs "TimeSignature")
                        || list_eqb ttype (zs "TieMode")) then
@@ -580,7 +844,10 @@ Fixpoint lex_f (fuel : nat) (ls : lexstate) (src : list ch) (lineno : Z) : res l
                      do sub <- lex_f f ls block ln2;
                      let '(toks, ls') := sub in
                      loop n' ls' s4 ln4 harmony (acc ++ [TDiv (div_count toks) len toks])
-                   else Unsupported U_UPPER
+                   else
+                     do ra <- read_ext_command ls ttype argt tag1 tag2 s1 ln;
+                     let '(ot, s2, ln2, ls') := ra in
+                     loop n' ls' s2 ln2 harmony (match ot with Some t => acc ++ [t] | None => acc end)
                  end
              else Unsupported U_CHAR   (* a full-width capital: prev() re-reads the unconverted character *)
            else if c =? 35 then
